@@ -31,3 +31,25 @@ fn c16_writev() {
     }
 }
 
+
+/// three entries (an empty one in the middle, a transfer ending on an inner boundary, ... need more than two)
+#[kani::proof]
+#[kani::unwind(5)]
+#[kani::stub(crate::syscall::is_socket, is_socket_stub)]
+#[kani::stub(crate::syscall::unix::set_non_blocking_flag, set_flag_stub)]
+#[kani::stub(crate::syscall::is_non_blocking, is_non_blocking_stub)]
+#[kani::stub(crate::common::now, now_stub)]
+#[kani::stub(crate::syscall::send_time_limit, limit_stub)]
+#[kani::stub(crate::net::EventLoops::wait_write_event, wait_stub)]
+fn c16_writev3() {
+    let nb = begin(3);
+    let iov = begin_vectored_n(false, 3);
+    let nio: NioWritevSyscall<Kernel> = NioWritevSyscall::default();
+    let r = nio.writev(None, 3, iov, 3);
+    check_common(r, nb, vtotal());
+    
+    unsafe {
+        kani::cover!(LENS[1] == 0 && LENS[0] > 0 && MOVED > LENS[0] && CALLS >= 2, "C16.cover_transfer_across_an_empty_middle_entry");
+        kani::cover!(MOVED == LENS[0] + LENS[1] && LENS[0] > 0 && LENS[1] > 0 && LENS[2] > 0 && CALLS >= 2, "C16.cover_transfer_ending_on_an_inner_boundary");
+    }
+}
